@@ -3983,7 +3983,8 @@ impl Zeroconf {
     }
 
     fn exec_command_register_resend(&mut self, fullname: String, if_index: u32) -> MyResult<()> {
-        let Some(info) = self.my_services.get_mut(&fullname) else {
+        // The services are keyed by their lower case full names.
+        let Some(info) = self.my_services.get_mut(&fullname.to_lowercase()) else {
             trace!("announce: cannot find such service {}", &fullname);
             return Ok(());
         };
